@@ -64,6 +64,7 @@ func vUpdateFrom(contract string, oldVersion int, data ...any) (bool, any) { ret
 func vRepoVersion() int                                    { return 0 }
 func vHeight() int                                         { return 0 }
 func vTime() int                                           { return 0 }
+func vFixClock()                                           {}
 func vEq(a, b []byte) bool                                 { return false }
 func vSha256(b []byte) []byte                              { return nil }
 `
@@ -412,6 +413,11 @@ func (e *Engine) vcall(fn *ssa.Function, s *St, in *ssa.Call, ip int, short stri
 			return set(IntV{I(int64(e.world.ex.Chain.BlockHeight()))})
 		}
 		return set(IntV{s.height})
+	case "vFixClock": // harnesses whose subject is not time run with one concrete block clock (cheaper Itoa)
+		if e.model == nil {
+			s.State.lastTime = I(1700000000000)
+		}
+		return set(UnitV{})
 	case "vTime": // timestamp (ms) of the block of the last transaction; reads run at vTime()+1
 		if e.model != nil {
 			return set(IntV{I(int64(e.world.ex.TopBlock(e.world.t).Timestamp))})
